@@ -1191,6 +1191,19 @@ func checkC19(rc *RunCtx, in *minInst, r *minRun, nTasks int) *Violation {
 			return &Violation{prop, "minimize/error-status", fmt.Sprintf("%s: error %v returned with status %v, want Failure", name, err, res.Status)}
 		}
 	}
+	// an injected Recorder / writer failure must come back as an error
+	// (single-task runs only: with several tasks the first terminal condition
+	// wins, and a Record call for an evaluation that was still in flight may
+	// fail after the run has already been stopped by something else)
+	rc.oracle("callback-error-reported")
+	if err == nil && nTasks == 1 {
+		if r.rec != nil && r.rec.failed > 0 {
+			return &Violation{prop, "minimize/recorder-error-swallowed", fmt.Sprintf("%s: Recorder.Record returned an error at call %d but Minimize returned err=nil (status %v)", name, r.rec.failed, res.Status)}
+		}
+		if r.wr != nil && r.wr.failed {
+			return &Violation{prop, "minimize/recorder-error-swallowed", fmt.Sprintf("%s: the Printer's writer failed at write %d but Minimize returned err=nil (status %v)", name, r.wr.failAt, res.Status)}
+		}
+	}
 	// Stats.Runtime is the simulated time the call took
 	rc.oracle("runtime-exact")
 	if st.Runtime != time.Duration(r.t1-r.t0) {
